@@ -147,6 +147,11 @@ theorem step_log (w : World) (op : Op) (q : Chain) : LogDelta H (w q) ((step H H
       · exact .same rfl
       · simp only [setChain_same]; exact .same rfl
     | setTime c now => simp only [step, Op.chain, setChain_same]; exact .same rfl
+    | createClientMsg c auth q' ct h t pd v cs => simp only [step, Op.chain, setChain_same]; exact .same (createClientMsg_admin _ _ _ _ _ _ _ _ _ _).cbLog
+    | upgradeClientMsg c auth q' ct h t pd v cs => simp only [step, Op.chain, setChain_same]; exact .same (upgradeClientMsg_admin _ _ _ _ _ _ _ _ _ _).cbLog
+    | registerRelayerMsg c auth q' rs => simp only [step, Op.chain, setChain_same]; exact .same (registerRelayerMsg_admin _ _ _ _).cbLog
+    | setRulesMsg c auth rules => simp only [step, Op.chain, setChain_same]; exact .same (setRulesMsg_admin _ _ _).cbLog
+    | updateClientMsg c sg q' h t ok => simp only [step, Op.chain, setChain_same]; exact .same (updateClientMsg_admin _ _ _ _ _ _ _).cbLog
     | nftIssue c a cls mr =>
       simp only [step, Op.chain, setChain_same]; refine .same ?_
       unfold nftIssueMsg; repeat' split
